@@ -277,7 +277,18 @@ func (o *OracleC04) probes(c *Chain, b *BlockCtx, v *View) []*Violation {
 		bal := sv.ModuleBalance("dispute").BigInt()
 		o.count("drain_probe_coverage_checks")
 		if bal.Cmp(liab) < 0 {
-			out = append(out, o.v(b.H, "drain-probe-coverage", "dispute-escrow-short-after-claims", "after every party claimed everything the chain lets it claim (each claim tried twice), the dispute account holds %s but still owes at least %s (%s)", bal, liab, detail))
+			// the same input-level diagnoses as for the direct coverage check (the open findings show here too: leftovers
+			// of other disputes' roundings can hide a truncation shortfall until everything has been claimed)
+			site, class := "drain-probe-coverage", "dispute-escrow-short-after-claims"
+			short := new(big.Int).Sub(liab, bal)
+			if short.Cmp(big.NewInt(int64(o.originCount(sv)))) <= 0 || short.Cmp(big.NewInt(int64(o.originCount(v)))) <= 0 {
+				site, class = "dispute-account", "short-by-unbond-truncation-units"
+			} else if sameReportDisputedAgain(v) {
+				site, class = "dispute-account", "dispute-escrow-short:report-already-slashed-by-earlier-dispute"
+			} else if backerMovedStake(c, v) {
+				site, class = "dispute-account", "dispute-escrow-short:backer-moved-stake-since-report"
+			}
+			out = append(out, o.v(b.H, site, class, "after every party claimed everything the chain lets it claim (each claim tried three times), the dispute account holds %s but still owes at least %s (%s)", bal, liab, detail))
 		}
 	}
 	return out
